@@ -744,6 +744,8 @@ def _pressure(seed):
            trace=True, salt=seed + 1),
       dict(base, W=3, N=9, layout='ints', actions=('done',), algo='regevo', trace=False,
            salt=seed + 2),
+      dict(base, W=8, N=16, layout='none', actions=('done',), algo='evo-keep-all', trace=True,
+           p_cold=0.01, p_hot=0.5, salt=seed + 3),
   ]
 
 
@@ -752,7 +754,7 @@ def _scenarios(tier, seed):
   r = rng(seed, 'c16-scenarios')
   quick = tier == 'quick'
   for cfg in _pressure(seed):
-    yield cfg, (3 if quick else 10)
+    yield cfg, (5 if quick else 12)
   k = 0
   for w in range(2, 9):
     for acts, policy, endl, brk in _MIXES:
@@ -823,8 +825,8 @@ def drv_concurrent_sampling(tier, seed):
              'algorithms Random(seed), regularized_evolution, an Evolution that keeps its whole population, '
              'Deduping(hill_climb, auto_reward_fn); '
              'shared (set up beforehand) or one per worker; staggered and barrier-released starts; optional '
-             'rendezvous so that all workers finish their trials at the same moment; 3 such pressure '
-             'scenarios always (3 resp. 10 runs); '
+             'rendezvous so that all workers finish their trials at the same moment; 4 such pressure '
+             'scenarios always (5 resp. 12 runs each); '
              + (f'quick: 1 run of every {_QUICK_STRIDE}th scenario of the grid W x mix x layout (offset by seed)'
                 if tier == 'quick' else 'thorough: 2 runs of every scenario of the grid')
              + '; invariants checked at quiescence on pg.poll_result, the probe log and per-worker '
